@@ -57,3 +57,9 @@ Fixpoint judge_trace (prev : store) (h : list cmd) (os : list ostep) : list nat 
   | c :: h', o :: os' => let '(code, cur) := judge prev c o in code :: judge_trace cur h' os'
   | _, _ => []
   end.
+
+(** does the model's step agree with the spec's step (as sets)? *)
+Definition refines_at (st : store) (c : cmd) : bool :=
+  let '(m, rm, vm) := run_cmd st c in agrees false (spec_step st c) m rm vm.
+Definition state_after (h : list cmd) : store :=
+  fold_left (fun st c => fst (fst (run_cmd st c))) h init_store.
